@@ -122,6 +122,13 @@ def judge(ctx, g, case):
         with contextlib.redirect_stderr(io.StringIO()), contextlib.redirect_stdout(io.StringIO()):
             ap = ArgParser(commands=[tuple(c) if not isinstance(c, tuple) else c for c in g['cmds']],
                            default_command=g['dflt'], prog="t", **g.get('flags', {}))
+            pristine = None
+            if len(g['cmds']) % 4 == 1:
+                # the application keeps the bare parser as a template and works with a deep copy of it: the copy
+                # gets the options and is judged, the template must stay without them
+                import copy
+                pristine, ap = ap, copy.deepcopy(ap)
+                ctx.count("parsers_judged_as_deep_copies_of_a_template")
             for o, owner, flag in g['opts']:
                 kw = {'action': 'store_true'} if flag else {}
                 if isinstance(flag, str):
@@ -141,6 +148,18 @@ def judge(ctx, g, case):
         return
     exp_default = g['dflt'] or g['real'][0]
     problems = []
+    if pristine is not None:
+        for o, owner, flag in g['opts'][:6]:
+            cmd = g['real'][len(o) % len(g['real'])]
+            argv = [cmd, o] + ([] if flag else ["val"])
+            try:
+                with contextlib.redirect_stderr(io.StringIO()), contextlib.redirect_stdout(io.StringIO()):
+                    pristine.parse_args(list(argv))
+                problems.append(("option-of-a-copy-accepted-by-the-parser-it-was-copied-from", {"argv": argv}))
+            except SystemExit:
+                pass
+            except Exception as err:
+                problems.append(("parse-raises", {"argv": argv, "type": type(err).__name__, "msg": str(err)[:100]}))
     for cmd in g['real']:
         for o, owner, flag in g['opts']:
             for without_cmd in ((False, True) if cmd == exp_default else (False,)):
